@@ -95,6 +95,55 @@ func c17MoreScenarios() []c17Scn {
 		}
 	}})
 
+	// dirk account manager: the refresh finds one account fewer (the operator has moved a validator elsewhere)
+	scns = append(scns, c17Scn{name: "dirk/refresh-drops-account+queries", setup: func(ctx context.Context) []func() {
+		k1, k2 := c13Key("W", "Val1"), c13Key("W", "Val2")
+		prov := &c13Provider{table: map[phase0.BLSPubKey]*apiv1.Validator{
+			k1: c13Validator(k1, 3, c13Rec{act: 0, exit: c13FFE, wd: c13FFE}),
+			k2: c13Validator(k2, 7, c13Rec{act: 0, exit: c13FFE, wd: c13FFE})}}
+		vm := c13NewVM(prov)
+		w := c13WalletWith("W", "Val1", "Val2")
+		svc := dirkam.VerifNewService([]string{"W"}, map[string]e2wtypes.Wallet{"W": w}, vm, c13ChainTime(), c13FFE, 2)
+		svc.Refresh(ctx)
+		w.offer = w.offer[:1]
+		return []func(){
+			func() { svc.Refresh(ctx) },
+			func() { _, _ = svc.ValidatingAccountsForEpoch(ctx, 1) },
+			func() {
+				accts, _ := svc.ValidatingAccountsForEpochByIndex(ctx, 1, []phase0.ValidatorIndex{3, 7})
+				for _, i := range keysSorted(accts) {
+					if accts[i] == nil {
+						panic(fmt.Sprintf("ValidatingAccountsForEpochByIndex reports validator %d with no account at all", i))
+					}
+				}
+			},
+		}
+	}})
+	// ... and the same for the wallet manager
+	scns = append(scns, c17Scn{name: "wallet/refresh-drops-account+queries", setup: func(ctx context.Context) []func() {
+		k1, k2 := c13Key("W", "Val1"), c13Key("W", "Val2")
+		prov := &c13Provider{table: map[phase0.BLSPubKey]*apiv1.Validator{
+			k1: c13Validator(k1, 3, c13Rec{act: 0, exit: c13FFE, wd: c13FFE}),
+			k2: c13Validator(k2, 7, c13Rec{act: 0, exit: c13FFE, wd: c13FFE})}}
+		vm := c13NewVM(prov)
+		svc := walletam.VerifNewService([]string{"W"}, nil, vm, c13ChainTime(), c13FFE, 2)
+		svc.VerifMirrorRefreshAccounts(ctx, []e2wtypes.Wallet{c13WalletWith("W", "Val1", "Val2")})
+		_ = svc.VerifRefreshValidators(ctx)
+		w2 := c13WalletWith("W", "Val1")
+		return []func(){
+			func() { svc.VerifMirrorRefreshAccounts(ctx, []e2wtypes.Wallet{w2}) },
+			func() { _, _ = svc.ValidatingAccountsForEpoch(ctx, 1) },
+			func() {
+				accts, _ := svc.ValidatingAccountsForEpochByIndex(ctx, 1, []phase0.ValidatorIndex{3, 7})
+				for _, i := range keysSorted(accts) {
+					if accts[i] == nil {
+						panic(fmt.Sprintf("ValidatingAccountsForEpochByIndex reports validator %d with no account at all", i))
+					}
+				}
+			},
+		}
+	}})
+
 	// wallet account manager: refresh vs validating-account queries
 	scns = append(scns, c17Scn{name: "wallet/refresh-queries", setup: func(ctx context.Context) []func() {
 		k1, k2 := c13Key("W", "Val1"), c13Key("W", "Val2")
@@ -104,11 +153,14 @@ func c17MoreScenarios() []c17Scn {
 		vm := c13NewVM(prov)
 		w := c13WalletWith("W", "Val1")
 		svc := walletam.VerifNewService([]string{"W"}, nil, vm, c13ChainTime(), c13FFE, 2)
-		svc.VerifRefreshFromWallets(ctx, []e2wtypes.Wallet{w})
+		svc.VerifMirrorRefreshAccounts(ctx, []e2wtypes.Wallet{w})
 		_ = svc.VerifRefreshValidators(ctx)
 		w2 := c13WalletWith("W", "Val1", "Val2")
 		return []func(){
-			func() { svc.VerifRefreshFromWallets(ctx, []e2wtypes.Wallet{w2}); _ = svc.VerifRefreshValidators(ctx) },
+			func() {
+				svc.VerifMirrorRefreshAccounts(ctx, []e2wtypes.Wallet{w2})
+				_ = svc.VerifRefreshValidators(ctx)
+			},
 			func() { _, _ = svc.ValidatingAccountsForEpoch(ctx, 1) },
 			func() {
 				_, _ = svc.ValidatingAccountsForEpochByIndex(ctx, 1, []phase0.ValidatorIndex{3, 7})
